@@ -197,6 +197,19 @@ def prop_truncate(case, ctx):
     Z = ctx.lib(teneva.truncate, as_stored(Y, case["T"].get("Y"), ctx), e, cap, use_stab=use_stab, is_eigh=is_eigh)
     reduced, _ = check_truncation(ctx, Y, Z, e, cap, is_eigh, f"truncate(is_eigh={is_eigh}, use_stab={use_stab})")
     ctx.nontrivial(reduced)
+    # 'with and without stabilisation' also for the documented orth=False spelling (no orthogonalisation: the caller did it): there the
+    # stabilisation flag has nothing to rescale, so both settings must return the same ranks and the same tensor up to rounding
+    Yo = ctx.lib(teneva.orthogonalize, Y, d - 1)
+    A = ctx.lib(teneva.truncate, Yo, e * max(nrm, 1e-300), cap, orth=False, use_stab=False, is_eigh=is_eigh)
+    B = ctx.lib(teneva.truncate, Yo, e * max(nrm, 1e-300), cap, orth=False, use_stab=True, is_eigh=is_eigh)
+    ctx.check(oracle.wellformed(A, oracle.shape_of(Y)) is None and oracle.wellformed(B, oracle.shape_of(Y)) is None, "truncate(orth=False): malformed result")
+    ctx.check(oracle.ranks_of(A) == oracle.ranks_of(B), "truncate(orth=False): ranks differ between use_stab=False and use_stab=True",
+              plain=oracle.ranks_of(A), stab=oracle.ranks_of(B), e_abs=e * nrm)
+    if oracle.ranks_of(A) == oracle.ranks_of(B):
+        dA = dense(A)
+        ctx.check(fro(dA - dense(B)) <= 1e-9 * max(fro(dA), 1e-300), "truncate(orth=False): tensors differ between use_stab=False and use_stab=True",
+                  diff=fro(dA - dense(B)), norm=fro(dA))
+    ctx.inner(1)
 
 
 # ------------------------------------------------------------------------------------------- add_many
